@@ -361,8 +361,24 @@ func runScenario(r *core.Run, eng *core.Eng, srv *core.Srv, sc scenario) (vio ma
 		}
 	}
 
-	// KILL QUERY on a blocked statement
+	// KILL naming ids that no connection has (beyond 32 bits with a live connection's id in the low bits, and a
+	// plain unused one): whatever the statement answers, no connection's statement may end
 	tq := workers[sc.KillQ]
+	for _, q := range []string{fmt.Sprintf("KILL QUERY %d", uint64(tq.id)+1<<32), fmt.Sprintf("KILL CONNECTION %d", uint64(tq.id)+1<<33),
+		fmt.Sprintf("KILL QUERY %d", uint64(workers[0].id)+3<<32), "KILL QUERY 987654"} {
+		if _, st := ctl.exec(q); st {
+			stuck = "kill-statement-itself-hangs"
+			return
+		}
+		r.Count("server.kill.unused-id", 1)
+	}
+	time.Sleep(150 * time.Millisecond)
+	othersUntouched(nil, "after KILL statements naming ids no connection has")
+	if len(vio) > 0 {
+		return
+	}
+
+	// KILL QUERY on a blocked statement
 	if err, st := ctl.exec(fmt.Sprintf("KILL QUERY %d", tq.id)); st {
 		stuck = "kill-statement-itself-hangs"
 		return
